@@ -115,6 +115,18 @@ func (h *errHook) Last() string {
 	}
 	return h.msgs[len(h.msgs)-1]
 }
+// Count returns how many of the retained messages contain sub.
+func (h *errHook) Count(sub string) int {
+	h.mu.Lock()
+	defer h.mu.Unlock()
+	n := 0
+	for _, m := range h.msgs {
+		if strings.Contains(m, sub) {
+			n++
+		}
+	}
+	return n
+}
 func (h *errHook) Clear() { h.mu.Lock(); h.msgs = nil; h.mu.Unlock() }
 
 var theHook = &errHook{}
@@ -139,6 +151,10 @@ type Daemon struct {
 	panicV string // set when the sync goroutine panicked
 	JournalMode, Synchronous string // as configured by the daemon's own Init
 }
+
+// DaemonDSNExtra: further connection options for the daemon's pool (what an operator sets with
+// db.mode), e.g. "&_busy_timeout=40"
+var DaemonDSNExtra = ""
 
 // OpenDaemon runs node.NewPegnetd on dir/sql.db (created if missing) with the statement-counting
 // driver swapped in. The caller has applied the Setup.
@@ -166,7 +182,7 @@ func OpenDaemon(dir string, fake *FakeFactom) (*Daemon, error) {
 	old.QueryRow("PRAGMA journal_mode").Scan(&jm)
 	old.QueryRow("PRAGMA synchronous").Scan(&sy)
 	d.JournalMode, d.Synchronous = strings.ToLower(jm), sy
-	db, err := sql.Open("sqlite3_verif", d.DBPath+"?_journal="+strings.ToUpper(jm)+"&_sync="+sy)
+	db, err := sql.Open("sqlite3_verif", d.DBPath+"?_journal="+strings.ToUpper(jm)+"&_sync="+sy+DaemonDSNExtra)
 	if err != nil {
 		cancel()
 		return nil, err
